@@ -51,9 +51,18 @@ def run(ctx):
     ]
     return ctx.finish(
         rule="plans = TLC simulation of Semap.tla (4 procs, 2 keys, ratio 1..3) + seeded random schedules "
-             "(3..6 procs, 1..3 keys, ratio 1,2,3,10); variants single/wide/xhash, shards 1,2,7,73",
+             "(3..6 procs, 1..3 keys, ratio 1,2,3,10, 255..257, 65535..65537, MaxInt, MaxInt-1); variants "
+             "single/wide/xhash, shards 1,2,7,73; keys as ints, strings, equal numbers of different integer "
+             "types, and unusual dynamic kinds (nil, typed nil pointers, structs, pointers, arrays, bool, "
+             "float, channel; for the sharded variants the kinds remap can place, incl. Bs / HitGroup types); "
+             "contexts cancelled, with deadline, below a value, ended through the parent, of the caller's own "
+             "type; long runs (acquire/release cycles as one event: 255..257, 65535..65537), a two-writer "
+             "ping-pong of 300 hand-offs, race steps (releases, cancellations and arrivals let go by one "
+             "barrier) and free-running rounds of simultaneous releases",
         explanation="every step: worker statuses (hold/parked/gate/idle) and (present,cur,waiters) per key "
-                    "from the verif accessors must equal the successor state of Semap.tla")
+                    "from the verif accessors must equal the successor state of Semap.tla; a batch / race "
+                    "step must equal the result of some order of its critical sections; a run must leave "
+                    "the state as one cycle leaves it (unchanged) with every cycle gone through")
 
 
 def branch_coverage(traces):
